@@ -93,6 +93,19 @@ func (e *Env) runHandshake() error {
 	if err := e.NewClient(e.Srv.Addr()); err != nil {
 		return err
 	}
+	if len(e.Sc.HSDCs) > 0 {
+		dcs := map[int]string{}
+		for _, id := range e.Sc.HSDCs {
+			ds, err := e.AddServer(fmt.Sprintf("dc-%d", id))
+			if err != nil {
+				return err
+			}
+			ds.Fault = nil
+			ds.OnRequest = defaultAPI
+			dcs[id] = ds.Addr()
+		}
+		e.Client.SetDCList(dcs)
+	}
 	if e.Sc.ReseedGlobal != nil {
 		mathrand.Seed(*e.Sc.ReseedGlobal) //nolint:staticcheck // the point is to control the global generator
 	}
